@@ -4,6 +4,7 @@ import json, os
 HERE = os.path.dirname(os.path.dirname(os.path.abspath(__file__)))
 
 # property id -> (level text, level note, technique, design ref)
+T0="contract-based deductive verification: weakest-precondition style VCs over go/ssa of /repo, discharged by z3 4.8.12 / z3 5.1.0 / cvc5 1.0"
 CLAIMED = {
  "C14": ("Deductive proof (self-written VC generator govc over go/ssa, z3/cvc5) of contracts on the real pfb functions: hexEncode and (*pfbReader).Read.",
          "Trusted: govc, go/ssa, solvers, io.Reader/io.ReadFull interface contracts; see evidence assumptions.",
@@ -32,8 +33,17 @@ CLAIMED["C07"] = ("Deductive proof of contracts on the CIDInit procedure set: ea
   "DESIGN.md §3 C07")
 CLAIMED["C20"] = ("Deductive proof, for all 2^32 integers, that appendInt writes the Type 1 number format of the proper range (one byte for -107..107, two bytes for +-108..1131, five bytes otherwise) and that the bytes decode to the same integer under the Type 1 book's number formats (ghost decoder specT1Int); proof that the real charstring decoder's number branches implement the same formats (per-iteration step clause of the decoding loop: pushes float64(specT1Int(code)) and advances by its length, rest of the stack unchanged).",
   "Partial: the fraction clauses (p/q within 1/214, no drift along a path) are not yet under contract (see evidence.not_covered); float64 arithmetic on the small integers involved is treated as exact real arithmetic. Trusted: govc, go/ssa, solvers.",
-  "contract-based deductive verification: weakest-precondition style VCs over go/ssa of /repo, discharged by z3 4.8.12 / z3 5.1.0 / cvc5 1.0",
-  "DESIGN.md §3 C20")
+  T0, "DESIGN.md §3 C20")
+CLAIMED["C05"] = ("Deductive proof of the eexec cipher step of the scanner against the Adobe algorithm (plain = cipher xor (r>>8); r = (cipher + r)*52845 + 22719), of the mode discipline (nested eexec refused, mode only set on success, read errors keep the mode), of closefile (pops the file object, signals end of section) and of the eexec operator's operand check and dictionary-stack restoration on success.",
+  "Partial: transparency of whole programs is the modular consequence of these contracts, not a replayed equality; hex de-armouring of readByteEexec and readstring byte-exactness are not yet under functional contract. Trusted: govc, go/ssa, solvers.", T, "DESIGN.md §3 C05")
+CLAIMED["C06"] = ("Deductive proof that charstring decryption computes, for every lenIV n with 0 <= n <= len, plain[k] = cipher[n+k] xor (R_{n+k} >> 8) with R_0 = 4330 and the Type 1 recurrence (recursive specification function specCSR, SMT define-fun-rec), returns nil for n outside the range; plus the number formats of the charstring decoder (shared with C20).",
+  "Partial: path/hint/flex/seac command semantics of the decoder and the extraction of dictionaries by type1.Read are not under functional contract (see evidence.not_covered). Trusted: govc, go/ssa, solvers; recursive spec functions assumed terminating.", T, "DESIGN.md §3 C06")
+CLAIMED["C08"] = ("Deductive proof of the writer's format-defining pieces: charstring obfuscation is the Type 1 encryption (key 4330, recurrence on the cipher byte) of iv ++ plain; the eexec stream writer encrypts each buffered byte by the same step and keeps its state; hex and eexec writers count what they accept; counting writer adds exactly n; number and operator encodings (shared with C20).",
+  "Partial: the template text, PFB framing, the lead-byte search and the encoding shortcut are not under functional contract (see evidence.not_covered). Trusted: govc, go/ssa, solvers.", T, "DESIGN.md §3 C08")
+CLAIMED["C10"] = ("Deductive proof of the implicit safety obligations (no panic) on every function of the Type 1 and AFM writers under the writable-domain invariant (fontWF, glyph commands well-formed, kerning pairs non-nil), and proof that type1.Read establishes that invariant for every font it returns.",
+  "Partial: 'writing succeeds without error' and the re-read equalities go through text/template and the interpreter and are not expressible (see evidence.not_covered); names made of non-regular characters are outside the proved domain. Trusted: govc, go/ssa, solvers, text/template.", T, "DESIGN.md §3 C10")
+CLAIMED["C13"] = ("Deductive proof with ghost state: (readers) the scanner's first read error is sticky and every short read surfaces as a non-nil error through refill, readByteRaw, readByte, PeekN; (writers) ghost flag wfault ('some write to an underlying io.Writer failed'): every writer function - hex, eexec, counting writers, Font.Write in all formats, Font.WritePDF, afm Metrics.Write - returns a non-nil error whenever a write failed during the call.",
+  "Partial: truncation-never-yields-partial-result and the upper reader layers (ScanToken, Execute, type1.Read, afm.Read) are not yet under this contract (see evidence.not_covered). Trusted: io.Writer/io.Reader interface contracts, fmt.Fprintf and text/template report write errors.", T, "DESIGN.md §3 C13")
 NA = {}
 ALL = ["C%02d" % i for i in range(1, 21)]
 for p in ALL:
